@@ -3,7 +3,7 @@
    operations, (3) the row holds the state of the last flushed change, its predecessor is closed
    once, flags accumulate.  (1) and (2) are stated here; (3) is C11_row_matches_operation. *)
 From Continuum Require Import Model.Base Model.VTable Model.Core
-     Proofs.CoreP Proofs.ChainP Proofs.CoreChainP Proofs.TrackP.
+     Proofs.CoreP Proofs.ChainP Proofs.CoreChainP Proofs.TrackP Gen.ManagerGen Proofs.ManagerGenP.
 
 (* (1) however many flushes: the table primary key (entity key, transaction id) holds in every
    reachable state - a transaction leaves at most one row per entity - and the package never
@@ -23,6 +23,24 @@ Theorem C11_operation_type_coalesces : forall g c k es ops,
   option_map op_kind (op_at (fold_left (track g) es ops) c k) =
   coalesce_kinds (option_map op_kind (op_at ops c k)) (kinds_for g c k es).
 Proof. exact track_coalesces. Qed.
+
+(* the kinds the model's trackers store are those Operations.add_insert / add_delete store in the
+   CURRENT operation.py (Gen/ManagerGen.v is regenerated from it on every build) *)
+Theorem C11_insert_kind_is_the_code : forall g ops e,
+  k_versioned (cls_of g (e_cls e)) = true -> e_kind e = OP_INS ->
+  track g ops e =
+  put_op (mk_oper (cls_of g (e_cls e)) e
+            (gen_add_insert (existsb (same_op (e_cls e) (key_of (cls_of g (e_cls e)) (e_vals e))) ops))) ops.
+Proof. exact track_insert_uses_generated_kind. Qed.
+
+Theorem C11_delete_kind_is_the_code : forall g ops e,
+  k_versioned (cls_of g (e_cls e)) = true -> e_kind e = OP_DEL ->
+  track g ops e = put_op (mk_oper (cls_of g (e_cls e)) e (gen_add_delete true)) ops.
+Proof. exact track_delete_uses_generated_kind. Qed.
+
+Theorem C11_operation_constants_are_the_code :
+  gen_OP_INSERT = OP_INS /\ gen_OP_UPDATE = OP_UPD /\ gen_OP_DELETE = OP_DEL.
+Proof. exact gen_operation_constants. Qed.
 
 (* events of other entities never disturb an entity's entry *)
 Theorem C11_other_entities_do_not_interfere : forall g c k es ops,
@@ -44,3 +62,6 @@ Print Assumptions C11_at_most_one_row.
 Print Assumptions C11_operation_type_coalesces.
 Print Assumptions C11_other_entities_do_not_interfere.
 Print Assumptions C11_example.
+Print Assumptions C11_insert_kind_is_the_code.
+Print Assumptions C11_delete_kind_is_the_code.
+Print Assumptions C11_operation_constants_are_the_code.
